@@ -61,6 +61,12 @@ struct RecOwned {
 	b: String,
 	c: serde_bytes::ByteBuf,
 }
+/// Lacks the record's `skipped` field: the subject has to skip it (`IgnoredAny` inside a struct).
+#[derive(Deserialize, Debug)]
+#[allow(dead_code)]
+struct Kept {
+	kept: i32,
+}
 #[derive(Deserialize, Debug)]
 #[allow(dead_code)]
 struct List {
@@ -82,6 +88,7 @@ macro_rules! typed {
 }
 typed!(rec_s, rec_c, RecBorrowed<'_>, RecOwned);
 typed!(list_s, list_c, List, List);
+typed!(kept_s, kept_c, Kept, Kept);
 typed!(veclong_s, veclong_c, Vec<i64>, Vec<i64>);
 typed!(vecunit_s, vecunit_c, Vec<()>, Vec<()>);
 typed!(mapunit_s, mapunit_c, std::collections::BTreeMap<String, ()>, std::collections::BTreeMap<String, ()>);
@@ -91,6 +98,7 @@ typed!(dec_s, dec_c, rust_decimal::Decimal, rust_decimal::Decimal);
 typed!(optlist_s, optlist_c, Option<List>, Option<List>);
 
 static T_REC: TypedTarget = TypedTarget { name: "RecBorrowed{a:i32,b:&str,c:&[u8]}", slice: rec_s, chunked: rec_c, non_allocating_on_slice: true };
+static T_KEPT: TypedTarget = TypedTarget { name: "Kept{kept:i32} (field `skipped` absent)", slice: kept_s, chunked: kept_c, non_allocating_on_slice: true };
 static T_LIST: TypedTarget = TypedTarget { name: "List{v:i32,next:Option<Box<List>>}", slice: list_s, chunked: list_c, non_allocating_on_slice: false };
 static T_VECLONG: TypedTarget = TypedTarget { name: "Vec<i64>", slice: veclong_s, chunked: veclong_c, non_allocating_on_slice: false };
 static T_VECUNIT: TypedTarget = TypedTarget { name: "Vec<()>", slice: vecunit_s, chunked: vecunit_c, non_allocating_on_slice: true };
@@ -134,6 +142,14 @@ fn hostile_set() -> Vec<(RSchema, Option<&'static TypedTarget>)> {
 		(S::map(S::array(S::String)), None),
 		(S::array(S::Union(vec![S::Null, S::map(S::Bytes)])), None),
 		(S::record("h.Tree", vec![("v", S::Null), ("kids", S::array(S::rf("h.Tree")))]), None),
+		// nesting ladders: every level of an array^k must be charged, also when the target ignores it
+		(S::array(S::array(S::Int)), None),
+		(S::array(S::array(S::array(S::Int))), None),
+		(S::array(S::array(S::array(S::array(S::Null)))), None),
+		(S::map(S::map(S::array(S::Null))), None),
+		// a nested array the target has no field for, in front of a field it keeps
+		(S::record("h.Skip", vec![("skipped", S::array(S::array(S::Int))), ("kept", S::Int)]), Some(&T_KEPT)),
+		(S::record("h.Skip3", vec![("skipped", S::array(S::array(S::array(S::Null)))), ("kept", S::Int)]), Some(&T_KEPT)),
 	]
 }
 
@@ -342,7 +358,14 @@ fn judge(cs: &serde_avro_fast::Schema, bytes: &[u8], m: &Model, cfg: &Cfg, path:
 	}
 	// limits: a datum the reference model accepts and that exceeds a limit must be rejected
 	if let Some((sh, _n)) = &m.valid {
-		let visits_everything = !matches!(t, Target::Obs(Hint::Ignored)) || m.canonical;
+		// a target that ignores (part of) the datum skips sized blocks by their byte size without
+		// descending: the demand holds for it only when the datum is written with unsized blocks
+		let ignores = match t {
+			Target::Obs(Hint::Ignored) => true,
+			Target::Typed(tt) => tt.name.starts_with("Kept"),
+			_ => false,
+		};
+		let visits_everything = !ignores || m.canonical;
 		if visits_everything {
 			let mut demand: Vec<&str> = Vec::new();
 			if sh.depth > cfg.depth {
@@ -504,20 +527,34 @@ fn run_unit(u: &Unit, p: &Params, trace: bool) -> UnitOut {
 			let cfg = Cfg { depth: d, ..G };
 			let a = run(&cfg, Path::Slice, &Target::Fold, &mut out);
 			let b = run(&cfg, Path::Reader1, &Target::Obs(Hint::Any), &mut out);
-			any_limit |= a.limit_fired | b.limit_fired;
+			// the ignoring target has decoding paths of its own (`deserialize_ignored_any`): same demand
+			let ig = run(&cfg, Path::Slice, &Target::Obs(Hint::Ignored), &mut out);
+			let ig2 = run(&cfg, Path::Reader1, &Target::Obs(Hint::Ignored), &mut out);
+			any_limit |= a.limit_fired | b.limit_fired | ig.limit_fired | ig2.limit_fired;
+			if ig.limit_fired {
+				out.cover.count("depth_limit_rejections_demanded_of_ignoring_target", 1);
+			}
 			if a.limit_fired {
 				out.cover.count("depth_limit_rejections_demanded", 1);
 			}
 			if let Some(tt) = u.typed {
 				let c = run(&cfg, Path::Slice, &Target::Typed(tt), &mut out);
-				any_limit |= c.limit_fired;
+				let c2 = run(&cfg, Path::Reader1, &Target::Typed(tt), &mut out);
+				any_limit |= c.limit_fired | c2.limit_fired;
+				if c.limit_fired {
+					out.cover.count("depth_limit_rejections_demanded_of_typed_target", 1);
+				}
 			}
 		}
 		for s in SEQ_CFGS {
 			let cfg = Cfg { seq: s, ..G };
 			let a = run(&cfg, Path::Slice, &Target::Fold, &mut out);
 			let b = run(&cfg, Path::Reader1, &Target::Obs(Hint::Any), &mut out);
-			any_limit |= a.limit_fired | b.limit_fired;
+			let ig = run(&cfg, Path::Slice, &Target::Obs(Hint::Ignored), &mut out);
+			any_limit |= a.limit_fired | b.limit_fired | ig.limit_fired;
+			if ig.limit_fired {
+				out.cover.count("seq_limit_rejections_demanded_of_ignoring_target", 1);
+			}
 			if a.limit_fired {
 				out.cover.count("seq_limit_rejections_demanded", 1);
 			}
@@ -732,6 +769,40 @@ fn seeds(thorough: bool) -> Vec<Seed> {
 		for path in paths {
 			for t in &targets {
 				out.push(Seed { name: "recursive array-of-self nested 10^5 deep", schema: tree.clone(), bytes: b.clone(), limits: defaults.clone(), path, target: t.clone(), must_err: true, mem_bound: None });
+			}
+		}
+	}
+	// a nested array that the target ignores (no such field / IgnoredAny) is charged like a visited one
+	{
+		let skip = S::record("s.Skip", vec![("skipped", S::array(S::array(S::array(S::array(S::Int))))), ("kept", S::Int)]);
+		// [[[[1]]]] in unsized one-item blocks, then kept = 7
+		let b: Vec<u8> = vec![0x02, 0x02, 0x02, 0x02, 0x02, 0x00, 0x00, 0x00, 0x00, 0x0e];
+		for depth in [1usize, 3, 4] {
+			let l = Limits { allowed_depth: Some(depth), max_seq_size: None, max_alloc_size: Some(64) };
+			for path in paths {
+				for t in [Target::Typed(&T_KEPT), Target::Obs(Hint::Ignored), Target::Fold, Target::Obs(Hint::Struct("Skip", vec![("kept", Hint::I32)]))] {
+					out.push(Seed { name: "record{skipped: array^4<int>, kept: int} = [[[[1]]]], 7: nesting 5 under a smaller allowed_depth, field `skipped` ignored by the target", schema: skip.clone(), bytes: b.clone(), limits: l.clone(), path, target: t, must_err: true, mem_bound: None });
+				}
+			}
+		}
+		let l5 = Limits { allowed_depth: Some(5), max_seq_size: None, max_alloc_size: Some(64) };
+		out.push(Seed { name: "record{skipped: array^4<int>, kept: int} = [[[[1]]]], 7 under allowed_depth 5 (fits)", schema: skip.clone(), bytes: b.clone(), limits: l5, path: Path::Slice, target: Target::Typed(&T_KEPT), must_err: false, mem_bound: None });
+		for k in [2usize, 3, 4] {
+			let mut s = S::Int;
+			let mut bytes = Vec::new();
+			for _ in 0..k {
+				s = S::array(s);
+				bytes.push(0x02);
+			}
+			bytes.push(0x02);
+			bytes.extend(std::iter::repeat(0x00).take(k));
+			for depth in 0..k {
+				let l = Limits { allowed_depth: Some(depth), max_seq_size: None, max_alloc_size: Some(64) };
+				for path in [Path::Slice, Path::Reader1] {
+					for t in [Target::Obs(Hint::Ignored), Target::Fold] {
+						out.push(Seed { name: "array^k<int> (unsized blocks) under allowed_depth < k", schema: s.clone(), bytes: bytes.clone(), limits: l.clone(), path, target: t, must_err: true, mem_bound: None });
+					}
+				}
 			}
 		}
 	}
@@ -1068,7 +1139,7 @@ pub fn run(rep: &mut Report) {
 	let us = units(thorough);
 	let p = params(thorough, us.iter().filter(|u| !u.hostile).count());
 	rep.rule = format!(
-		"Explicit-state search over the decoder's input-consumption tree, one tree per schema: {} hostile schemas (zero-byte elements, recursion, length-prefixed and decimal leaves; node cap {}) + the shared alphabet Σ_S level {} ({} schemas; node cap {}). Root = empty input; a prefix p is expanded by every byte of Σ_B = {{00,01,02,03,04,7f,80,81,fe,ff}} iff decoding p over a 1-byte-refill reader under the generous limits ended in Err after the reader had reported end of input, for at least one target (inside a fixed-size read the alphabet shrinks to {{00,ff}}); depth <= {} bytes. Every node is decoded under limits G=(allowed_depth 64, max_seq_size 1000, max_alloc_size 64) on slice / 1-byte-refill reader / one-refill reader with targets deserialize_any observation, IgnoredAny, non-allocating fold (+ a typed Rust target — borrowed struct, Vec, BTreeMap, recursive Box list, &str, &[u8], Decimal — for {} hostile schemas), and with one limit tightened at a time: allowed_depth in {{0,1,2}}, max_seq_size in {{0,1,3}}, max_alloc_size in {{0,1,8}}. Oracle per decode: returns (no panic; abort/hang = death of the worker subprocess, attributed by a traced re-run); if the reference model accepts the input as a datum whose nesting / longest array or map / largest slice-delivered field (reader, >= 2 bytes, i.e. not already buffered) exceeds the configured limit then Err; Ok on the slice path with a non-allocating target => 0 heap allocations; peak live heap <= {} + max_alloc_size + |input| (non-allocating targets; 64·|input| for typed ones); fill_buf/read calls <= 4·|input| + 2·(values delivered; max_seq_size·|input| when unknown) + 16. Plus {} literal adversarial seeds under the crate's default limits (i64::MIN block counts, 2^62 / i64::MAX / negative lengths, 10^9 zero-byte elements at and above max_seq_size, 10^5-deep recursion, depth ladders around 64, default 512 MiB allocation cap). Non-trivial: nodes of >= 2 bytes, nodes where a limit must reject a model-valid datum, and seeds; tree nodes are pairwise distinct (schema, byte string) pairs by construction.",
+		"Explicit-state search over the decoder's input-consumption tree, one tree per schema: {} hostile schemas (zero-byte elements, recursion, length-prefixed and decimal leaves; node cap {}) + the shared alphabet Σ_S level {} ({} schemas; node cap {}). Root = empty input; a prefix p is expanded by every byte of Σ_B = {{00,01,02,03,04,7f,80,81,fe,ff}} iff decoding p over a 1-byte-refill reader under the generous limits ended in Err after the reader had reported end of input, for at least one target (inside a fixed-size read the alphabet shrinks to {{00,ff}}); depth <= {} bytes. Every node is decoded under limits G=(allowed_depth 64, max_seq_size 1000, max_alloc_size 64) on slice / 1-byte-refill reader / one-refill reader with targets deserialize_any observation, IgnoredAny, non-allocating fold (+ a typed Rust target — borrowed struct, Vec, BTreeMap, recursive Box list, &str, &[u8], Decimal — for {} hostile schemas), and with one limit tightened at a time: allowed_depth in {{0,1,2}}, max_seq_size in {{0,1,3}} (fold, deserialize_any, IgnoredAny and the typed target — among them a struct that lacks a nested-array field), max_alloc_size in {{0,1,8}}. Oracle per decode: returns (no panic; abort/hang = death of the worker subprocess, attributed by a traced re-run); if the reference model accepts the input as a datum whose nesting / longest array or map / largest slice-delivered field (reader, >= 2 bytes, i.e. not already buffered) exceeds the configured limit then Err; Ok on the slice path with a non-allocating target => 0 heap allocations; peak live heap <= {} + max_alloc_size + |input| (non-allocating targets; 64·|input| for typed ones); fill_buf/read calls <= 4·|input| + 2·(values delivered; max_seq_size·|input| when unknown) + 16. Plus {} literal adversarial seeds under the crate's default limits (i64::MIN block counts, 2^62 / i64::MAX / negative lengths, 10^9 zero-byte elements at and above max_seq_size, 10^5-deep recursion, depth ladders around 64, default 512 MiB allocation cap). Non-trivial: nodes of >= 2 bytes, nodes where a limit must reject a model-valid datum, and seeds; tree nodes are pairwise distinct (schema, byte string) pairs by construction.",
 		us.iter().filter(|u| u.hostile).count(),
 		p.cap_hostile,
 		if thorough { 2 } else { 1 },
@@ -1120,7 +1191,7 @@ pub fn run(rep: &mut Report) {
 	rep.extra.insert("max_env_calls_per_input_byte".into(), json!(max_cpb as f64 / 100.0));
 	// vacuity guards
 	let c = |k: &str| rep.cover.counters.get(k).copied().unwrap_or(0);
-	for k in ["hungry_nodes", "hungry_in_fixed_size_read", "model_valid_nodes", "depth_limit_rejections_demanded", "seq_limit_rejections_demanded", "alloc_limit_rejections_demanded", "slice_ok_zero_alloc_checked", "seeds_run"] {
+	for k in ["hungry_nodes", "hungry_in_fixed_size_read", "model_valid_nodes", "depth_limit_rejections_demanded", "seq_limit_rejections_demanded", "alloc_limit_rejections_demanded", "slice_ok_zero_alloc_checked", "seeds_run", "depth_limit_rejections_demanded_of_ignoring_target", "seq_limit_rejections_demanded_of_ignoring_target", "depth_limit_rejections_demanded_of_typed_target"] {
 		if c(k) == 0 {
 			machinery(&format!("C04 vacuity guard: counter {k} is 0"));
 		}
